@@ -102,8 +102,11 @@ func c06Jobs(tier string, seed int64) []string {
 		if tier == "thorough" {
 			add("numcpu=1", "all", p)
 			add("numcpu=16", "all", p)
-			add("numcpu=2,sched=6", "all", p)
-			add("numcpu=4,sched=4", "early", p)
+			add("numcpu=2,sched=4", "all", p)
+			if pi%4 == 0 {
+				add("numcpu=4,sched=5", "all", p)
+				add("numcpu=4,sched=3", "early", p)
+			}
 		} else if pi%5 == int(seed%5+5)%5 {
 			add("numcpu=2,sched=3", "all", p)
 		}
